@@ -57,6 +57,16 @@ PRECONDITION = {
 }
 PRECONDITION = {k: v for k, v in PRECONDITION.items() if v}
 
+# Display implementations (of dependencies) that fail or panic on their own — not only when the writer fails. `to_string()`,
+# `format!`, `print!` panic on such a failure ("a Display implementation returned an error unexpectedly"); `write!` returns it.
+FALLIBLE_DISPLAY = {
+    "chrono::format::formatting::DelayedFormat": "chrono-format",      # Err on an invalid strftime item
+    "itertools::format::Format": "itertools-format-once",              # panics when formatted a second time
+    "itertools::format::FormatWith": "itertools-format-once",
+}
+# chrono strftime specifiers accepted by StrftimeItems (chrono 0.4): a constant format made of these cannot fail
+CHRONO_SPECS = set("YCyqmbBhdeaAwujUWGgVDxFvHkIlPpMSfTXRrZzcs+tn%")
+
 LEN_LIKE = ("::len", "::count", "::len_utf8", "::position", "::rposition", "::find", "::rfind", "::char_indices", "::enumerate",
             "::offset", "::capacity", "::min", "::max", "::saturating_sub", "::saturating_add", "::unwrap_or", "::unwrap_or_default",
             "::byte_offset", "::chars", "::bytes", "::width", "::index", "::start", "::end", "::checked_sub", "::get")
@@ -134,6 +144,17 @@ def _enumerate(prog, scope=None, crates=SHIPPED):
                         st = canon(t.self_ty or "")
                         ga = t.gen_args or ""
                         kind = "index:%s" % _index_class(st, ga)
+            if kind is None and t.kind == "call":
+                cal = t.callee or ""
+                tyargs = None
+                if cal == "alloc::string::ToString::to_string":
+                    tyargs = str(t.self_ty or "") + " " + str(t.gen_args or "")
+                elif cal.endswith(("fmt::rt::Argument::new_display", "fmt::rt::Argument::new_debug")):
+                    tyargs = str(t.gen_args or "")
+                if tyargs:
+                    for fty, fk in FALLIBLE_DISPLAY.items():
+                        if fty in tyargs:
+                            kind = "fallible-display:%s:%s" % (fk, "to_string" if cal.endswith("to_string") else "fmt-arg")
             if kind is None and t.kind == "call":
                 # precondition / panicking APIs passed as *function values* (e.g. `.map(Duration::from_secs_f64)`)
                 for a in t.args:
@@ -384,6 +405,51 @@ def _len_lower_bound(body, c, d, bb, recv_roots):
     return lb
 
 
+def _chrono_valid(fmt):
+    i = 0
+    while i < len(fmt):
+        if fmt[i] == '%':
+            i += 1
+            if i < len(fmt) and fmt[i] in "-_0":
+                i += 1
+            if i < len(fmt) and fmt[i] in ".:#" or (i < len(fmt) and fmt[i].isdigit()):
+                return False       # %.f %:z %3f …: not validated here
+            if i >= len(fmt) or fmt[i] not in CHRONO_SPECS:
+                return False
+        i += 1
+    return True
+
+
+def _chrono_discharge(b, d, t, k):
+    """(i) every DelayedFormat reaching the site was built by DateTime::format(<constant valid strftime string>);
+    (ii) a fmt-arg whose Arguments only reach write_fmt: the failure comes back as fmt::Error, it is not a panic"""
+    from dataflow import flow_back, forward_taint
+    if k.endswith(":to_string"):
+        flows = flow_back(b, d, t.args[0], all_args=True)
+        makers = [f.node for f in flows if f.kind == 'call' and "format" in (f.node.best_callee() or "").rsplit("::", 1)[-1]
+                  and "chrono" in (f.node.best_callee() or "")]
+        if not makers:
+            return None
+        for m in makers:
+            if not (m.best_callee() or "").endswith("::format") or len(m.args) < 2:
+                return None
+            strs = [g.node.string for g in flow_back(b, d, m.args[1]) if g.kind == 'const']
+            if not strs or any(x is None or not _chrono_valid(x) for x in strs):
+                return None
+        return "constant, valid strftime format string"
+    # fmt-arg
+    tl = forward_taint(b, {t.dest.local}) if t.dest is not None else set()
+    sinks = set()
+    for bb, tt in b.calls():
+        if any(a.place is not None and a.place.local in tl for a in tt.args):
+            c = tt.best_callee() or tt.callee or ""
+            if c.endswith(("::write_fmt", "fmt::format", "fmt::format::format_inner", "_print", "_eprint", "panic_fmt", "Formatter::write_fmt")) or "panicking" in c:
+                sinks.add(c)
+    if sinks and all(x.endswith("::write_fmt") for x in sinks):
+        return "formatted with write!: a failing Display comes back as fmt::Error (handled), not as a panic"
+    return None
+
+
 def auto_discharge(site):
     """returns a reason string if the site is provably safe by a local idiom, else None"""
     b = site.body
@@ -391,6 +457,10 @@ def auto_discharge(site):
     d = defs_of(b)
     t = site.term
     k = site.kind
+    if k.startswith("fallible-display:chrono-format"):
+        r = _chrono_discharge(b, d, t, k)
+        if r:
+            return r
     if t.kind == "assert":
         cv = const_value(b, d, t.discr)
         if cv is not None and bool(cv) == bool(t.raw.get("exp")):
